@@ -6,6 +6,9 @@ import CBV.Model.C13
 import Mathlib.Order.Basic
 import Mathlib.Data.List.Nodup
 import Mathlib.Data.List.Perm.Basic
+import Mathlib.Tactic.Linarith
+import Mathlib.Tactic.Ring
+import Mathlib.Algebra.Order.Field.Rat
 
 namespace CBV.C13
 
@@ -1177,5 +1180,150 @@ theorem optimizeLoop_noworse_general [LinearOrder Q] [LT S] [DecidableLT S] (hwf
                 exact ⟨qn, qf, hqn, hqf, hle⟩
 
 end general
+
+
+/-! ### set-up: `add_clamp`, `add_link` (round 5) -/
+
+section setup
+open CBV
+
+theorem findFirstFrom_spec (tol2 : Rat) (pos : V3) : ∀ (qs : List V3) (i k : Nat),
+    findFirstFrom tol2 pos qs i = some k →
+      i ≤ k ∧ (∃ q, qs[k - i]? = some q ∧ near tol2 q pos = true) ∧
+        ∀ m q, m < k - i → qs[m]? = some q → near tol2 q pos = false := by
+  intro qs
+  induction qs with
+  | nil => intro i k h; simp [findFirstFrom] at h
+  | cons q qs ih =>
+      intro i k h
+      unfold findFirstFrom at h
+      split at h
+      · next hq =>
+          cases h
+          refine ⟨Nat.le_refl _, ⟨q, by simp, hq⟩, fun m q' hm => by omega⟩
+      · next hq =>
+          obtain ⟨h1, ⟨q', hq', hn⟩, h3⟩ := ih (i + 1) k h
+          have e : k - i = (k - (i + 1)) + 1 := by omega
+          refine ⟨by omega, ⟨q', by rw [e, List.getElem?_cons_succ]; exact hq', hn⟩, fun m q'' hm hq'' => ?_⟩
+          cases m with
+          | zero => simp at hq''; subst hq''; simpa using hq
+          | succ m => rw [List.getElem?_cons_succ] at hq''; exact h3 m q'' (by omega) hq''
+
+theorem findFirstFrom_none (tol2 : Rat) (pos : V3) : ∀ (qs : List V3) (i : Nat),
+    findFirstFrom tol2 pos qs i = none → ∀ q ∈ qs, near tol2 q pos = false := by
+  intro qs
+  induction qs with
+  | nil => intro i _ q hq; cases hq
+  | cons q qs ih =>
+      intro i h q' hq'
+      unfold findFirstFrom at h
+      split at h
+      · cases h
+      · next hq =>
+          rcases List.mem_cons.mp hq' with rfl | h'
+          · simpa using hq
+          · exact ih (i + 1) h q' h'
+
+/-- two points both closer than TOL to a third are closer than 2·TOL to each other (squared form) -/
+theorem near_near (tol2 : Rat) (a b p : V3) (ha : near tol2 a p = true) (hb : near tol2 b p = true) :
+    V3.norm2 (a - b) < 4 * tol2 := by
+  have ha' := of_decide_eq_true ha
+  have hb' := of_decide_eq_true hb
+  simp only [V3.norm2, V3.dot, V3.sub_x, V3.sub_y, V3.sub_z] at ha' hb' ⊢
+  nlinarith [sq_nonneg (a.x - p.x + (b.x - p.x)), sq_nonneg (a.y - p.y + (b.y - p.y)), sq_nonneg (a.z - p.z + (b.z - p.z))]
+
+/-- points of the grid pairwise at least 2·TOL apart -/
+def Separated (tol2 : Rat) (pts : List V3) : Prop :=
+  ∀ (i j : Nat) (a b : V3), pts[i]? = some a → pts[j]? = some b → i ≠ j → 4 * tol2 ≤ V3.norm2 (a - b)
+
+theorem findFirst_unique (tol2 : Rat) (pts : List V3) (hs : Separated tol2 pts) (pos : V3) (k : Nat) (a : V3)
+    (hk : pts[k]? = some a) (hn : near tol2 a pos = true) : findFirst tol2 pts pos = some k := by
+  cases h : findFirst tol2 pts pos with
+  | none => have := findFirstFrom_none tol2 pos pts 0 h a (List.mem_of_getElem? hk); rw [hn] at this; cases this
+  | some i =>
+      obtain ⟨_, ⟨b, hb, hnb⟩, _⟩ := findFirstFrom_spec tol2 pos pts 0 i h
+      simp only [Nat.sub_zero] at hb
+      by_cases hik : i = k
+      · rw [hik]
+      · have h1 := hs i k b a hb hk hik
+        have h2 := near_near tol2 b a pos hnb hn
+        exact absurd h1 (not_le.mpr h2)
+
+theorem addClamp_spec (tol2 : Rat) (pts : List V3) (r : Reg) (cid : Nat) (pos : V3) :
+    ((addClamp tol2 pts r cid pos).2 ≠ none → (addClamp tol2 pts r cid pos).1 = r) ∧
+    ((addClamp tol2 pts r cid pos).2 = none → ∃ i q, findFirst tol2 pts pos = some i ∧ pts[i]? = some q ∧
+        near tol2 q pos = true ∧ (∀ m q', m < i → pts[m]? = some q' → near tol2 q' pos = false) ∧
+        (∀ c ∈ r.clamps, c.1 ≠ i) ∧ (addClamp tol2 pts r cid pos).1 = { r with clamps := r.clamps ++ [(i, cid)] }) := by
+  unfold addClamp
+  split
+  · simp
+  · next i hi =>
+      obtain ⟨_, ⟨q, hq, hn⟩, hm⟩ := findFirstFrom_spec tol2 pos pts 0 i hi
+      simp only [Nat.sub_zero] at hq hm
+      split
+      · simp
+      · next hany =>
+          refine ⟨by simp, fun _ => ⟨i, q, hi, hq, hn, hm, ?_, rfl⟩⟩
+          intro c hc hci
+          apply hany
+          simp only [List.any_eq_true]
+          exact ⟨c, hc, by simp [hci]⟩
+
+theorem scanLink_spec (tol2 : Rat) (leader follower : V3) : ∀ (qs : List V3) (i : Nat) (acc : Option Nat × Option Nat)
+    (pre : List V3), pre.length = i →
+    (∀ li, acc.1 = some li → ∃ q, (pre ++ qs)[li]? = some q ∧ near tol2 leader q = true) →
+    (∀ fi, acc.2 = some fi → ∃ q, (pre ++ qs)[fi]? = some q ∧ near tol2 follower q = true ∧ near tol2 leader q = false) →
+    (∀ li, (scanLink tol2 leader follower qs i acc).1 = some li →
+        ∃ q, (pre ++ qs)[li]? = some q ∧ near tol2 leader q = true) ∧
+    (∀ fi, (scanLink tol2 leader follower qs i acc).2 = some fi →
+        ∃ q, (pre ++ qs)[fi]? = some q ∧ near tol2 follower q = true ∧ near tol2 leader q = false) := by
+  intro qs
+  induction qs with
+  | nil => intro i acc pre _ h1 h2; simp only [scanLink, List.append_nil] at h1 h2 ⊢; exact ⟨h1, h2⟩
+  | cons q qs ih =>
+      intro i acc pre hp h1 h2
+      have hcur : (pre ++ q :: qs)[i]? = some q := by
+        rw [List.getElem?_append_right (by omega)]; simp [hp]
+      have hre : pre ++ q :: qs = (pre ++ [q]) ++ qs := by simp
+      unfold scanLink
+      split
+      · next hl =>
+          rw [hre]
+          apply ih (i + 1) _ (pre ++ [q]) (by simp [hp])
+          · intro li hli; cases hli; rw [← hre]; exact ⟨q, hcur, hl⟩
+          · intro fi hfi; rw [← hre]; exact h2 fi hfi
+      · next hl =>
+          split
+          · next hf =>
+              rw [hre]
+              apply ih (i + 1) _ (pre ++ [q]) (by simp [hp])
+              · intro li hli; rw [← hre]; exact h1 li hli
+              · intro fi hfi; cases hfi; rw [← hre]; exact ⟨q, hcur, hf, by simpa using hl⟩
+          · rw [hre]
+            apply ih (i + 1) acc (pre ++ [q]) (by simp [hp])
+            · intro li hli; rw [← hre]; exact h1 li hli
+            · intro fi hfi; rw [← hre]; exact h2 fi hfi
+
+theorem addLink_spec (tol2 : Rat) (pts : List V3) (r : Reg) (lid : Nat) (leader follower : V3) :
+    ((addLink tol2 pts r lid leader follower).2 ≠ none → (addLink tol2 pts r lid leader follower).1 = r) ∧
+    ((addLink tol2 pts r lid leader follower).2 = none → ∃ li fi a b, li ≠ fi ∧ pts[li]? = some a ∧ pts[fi]? = some b ∧
+        near tol2 leader a = true ∧ near tol2 follower b = true ∧
+        (addLink tol2 pts r lid leader follower).1 = { r with links := r.links ++ [⟨li, fi, lid⟩] }) := by
+  have hs := scanLink_spec tol2 leader follower pts 0 (none, none) [] rfl (by simp) (by simp)
+  simp only [List.nil_append] at hs
+  unfold addLink
+  split
+  · simp
+  · simp
+  · next li fi heq =>
+      rw [heq] at hs
+      split
+      · simp
+      · next hne =>
+          obtain ⟨a, ha, hna⟩ := hs.1 li rfl
+          obtain ⟨b, hb, hnb, _⟩ := hs.2 fi rfl
+          exact ⟨by simp, fun _ => ⟨li, fi, a, b, hne, ha, hb, hna, hnb, rfl⟩⟩
+
+end setup
 
 end CBV.C13
